@@ -70,6 +70,11 @@ pub fn special_patterns() -> Vec<String> {
     for n in [99usize, 100, 101] {
         out.push(format!("\\w{}\\w", "a".repeat(n)).replace("\\\\", "\\"));
     }
+    // case-specific classes without any literal (smart case must stay
+    // sensitive), with a lower-case literal, with an upper-case one
+    for cs in ["\\p{Lu}", "\\p{Ll}", "[[:upper:]]", "[[:lower:]]+", "\\P{Lu}", "(?:\\p{Lu}|\\d)", "\\p{Lu}a", "\\p{Lu}A", "a[[:upper:]]", "[[:upper:]]\\b", "\\p{Lu}+$", "^\\p{Ll}"] {
+        out.push(cs.replace("\\\\", "\\"));
+    }
     for raw in ["a\nb", "a\rb", "\n", "\r", "a\r\nb", "[a\r]", "[a\n]b", "a\\rb", "a\\nb", "\\r", "(?:a|\r)b", "a\x00b", "\\x00", "[a\\x00]"] {
         out.push(raw.to_string());
     }
